@@ -413,3 +413,22 @@ def bool_expr_bf(test: ast.AST, classify: T.Callable[[ast.AST], T.Tuple[str, boo
     atom, pol = classify(test)
     v = BF.var(atom)
     return v if pol else ~v
+
+
+def bool_contexts(root: ast.AST) -> T.Iterator[T.Tuple[ast.AST, ast.AST]]:
+    """(context node, operand) for operands evaluated for truthiness."""
+    for n in ast.walk(root):
+        if isinstance(n, ast.BoolOp):
+            for v in n.values:
+                yield n, v
+        elif isinstance(n, (ast.If, ast.While, ast.IfExp)):
+            t = n.test
+            if not isinstance(t, (ast.BoolOp, ast.Compare)):
+                yield n, t.operand if isinstance(t, ast.UnaryOp) and isinstance(t.op, ast.Not) else t
+        elif isinstance(n, ast.UnaryOp) and isinstance(n.op, ast.Not):
+            yield n, n.operand
+        elif isinstance(n, ast.Call) and unparse(n.func) in ("any", "all") and n.args and isinstance(n.args[0], (ast.Tuple, ast.List, ast.Set)):
+            for e in n.args[0].elts:
+                yield n, e
+
+
